@@ -303,3 +303,41 @@ Theorem C03_rebuild_exact_multi_unrepaired_refuted :
   d_log b3 = [41; 84] /\ d_log (dmake rs goals (d_fs b3) (d_clk b3)) = [80].
 Proof. vm_compute. repeat split. Qed.
 Print Assumptions C03_rebuild_exact_multi_unrepaired_refuted.
+
+(* ---- glue C03 <- C05: the one-producer-per-file hypotheses are what the emitters' duplicate check enforces ----
+   emit_paths (Path/Within.v) is the model of the duplicate detection of Makefile.rule / NinjaFile.build tied under
+   C05.  Whenever it accepts the output lists of the steps - under any naming esc of the files, injective or not -
+   every file has one producer and no step names an output twice (C05_emitted_outputs_distinct): the NoDup clause
+   of wf_script / wf_script_multi and the NoDup hypothesis of C03_deps_exact_ninja hold for every emitted script. *)
+From BFG Require Import Graph.EmitDupGlue.
+From BFG Require Path.Within.
+
+Theorem C03_emitted_one_producer : forall (esc : N -> str) mk (steps : list step) rules,
+  Within.emit_paths esc mk (map outs steps) = Within.EOk rules ->
+  NoDup (flat_map outs steps) /\ Forall (fun st => NoDup (outs st)) steps.
+Proof. exact emitted_one_producer. Qed.
+Print Assumptions C03_emitted_one_producer.
+
+Theorem C03_deps_exact_ninja_emitted : forall (esc : N -> str) mk steps rules has st o,
+  Within.emit_paths esc mk (map outs steps) = Within.EOk rules -> In st steps ->
+  shape_ok st = true -> In o (outs st) ->
+  exists l, ninja_prereqs (fst (emit_ninja_step has st)) o = Some l /\ set_eq l (consumed st).
+Proof. exact deps_exact_ninja_emitted. Qed.
+Print Assumptions C03_deps_exact_ninja_emitted.
+
+Theorem C03_wf_script_emitted : forall (esc : N -> str) mk steps rules,
+  Within.emit_paths esc mk (map outs steps) = Within.EOk rules ->
+  (Forall (fun st => simple st = true /\ shape_ok st = true) steps -> ordered steps -> wf_script steps) /\
+  (Forall (fun st => (simple st = true \/ multi st = true) /\ shape_ok st = true) steps -> ordered steps ->
+   wf_script_multi steps).
+Proof.
+  intros esc mk steps rules E.
+  split; [exact (wf_script_emitted esc mk steps rules E)|exact (wf_script_multi_emitted esc mk steps rules E)].
+Qed.
+Print Assumptions C03_wf_script_emitted.
+
+(* both example scripts are accepted by the duplicate check (each file named by the one-character string of its code) *)
+Example ex_emitted :
+  Within.emit_paths (fun n => [n]) true (map outs ex_steps) = Within.EOk [[[10]]; [[11]]; [[12]]; [[13]]] /\
+  Within.emit_paths (fun n => [n]) false (map outs ex_multi_steps) = Within.EOk [[[10]; [11]]; [[20]]; [[21]]].
+Proof. split; vm_compute; reflexivity. Qed.
